@@ -249,12 +249,39 @@ Fixpoint has_nil (rs : rvs) : bool :=
 (** a tuple assignment whose assign node was compiled away: the right-hand sides execute in order;
     a direct one writes its destination at once (a struct literal re-binds the variable), the
     others only compute their own slot *)
-Fixpoint y_multi_direct (h : heap) (e : env) (ls : list lv) (ds : list ydest) (rs : rvs) : option (heap * env) :=
+(** deref stores [value(f).Elem()] in the slot of the starExpr node: for a nil pointer that is the zero
+    reflect.Value, and nothing panics until the Value is used (Set, Field, Index).  In a tuple
+    assignment that was compiled away the operands of the dropped pairs are never used, so a
+    whole-operand [*p] with p == nil goes unnoticed.  [None] = the zero Value. *)
+Definition y_lv_lazy (h : heap) (e : env) (l : lv) : option (option ydest) :=
+  match l with
+  | LDeref b =>
+      sb <- y_rv h e b ;; bv <- slot_get h sb ;;
+      match bv with VPtr p => Some (Some (DRef p)) | VNil => Some None | _ => None end
+  | _ => d <- y_lv h e l ;; Some (Some d)
+  end.
+
+Fixpoint y_lvs_lazy (h : heap) (e : env) (ls : list lv) : option (list (option ydest)) :=
+  match ls with
+  | [] => Some []
+  | l :: r => d <- y_lv_lazy h e l ;; ds <- y_lvs_lazy h e r ;; Some (d :: ds)
+  end.
+
+(** the node of a right-hand side that is not consumed: executed, its slot never read *)
+Definition y_rv_unused (h : heap) (e : env) (r : rv) : option unit :=
+  match r with
+  | RLoad (LDeref b) =>
+      sb <- y_rv h e b ;; bv <- slot_get h sb ;;
+      match bv with VPtr _ | VNil => Some tt | _ => None end
+  | _ => _ <- y_rv h e r ;; Some tt
+  end.
+
+Fixpoint y_multi_direct (h : heap) (e : env) (ls : list lv) (ds : list (option ydest)) (rs : rvs) : option (heap * env) :=
   match ls, ds, rs with
   | [], [], RNone => Some (h, e)
   | l :: lr, d :: dr, RCons r rr =>
-      s <- y_rv h e r ;;
       if pair_direct l r then
+        s <- y_rv h e r ;;
         v <- slot_get h s ;;
         match l with
         | LVar x =>
@@ -263,9 +290,9 @@ Fixpoint y_multi_direct (h : heap) (e : env) (ls : list lv) (ds : list ydest) (r
             | RStruct _ => let '(a', h') := alloc h (CVal v) in y_multi_direct h' (rebind e x a') lr dr rr
             | _ => h' <- write h (a, []) v ;; y_multi_direct h' e lr dr rr
             end
-        | _ => h' <- y_store h d v ;; y_multi_direct h' e lr dr rr
+        | _ => d' <- d ;; h' <- y_store h d' v ;; y_multi_direct h' e lr dr rr
         end
-      else y_multi_direct h e lr dr rr
+      else _ <- y_rv_unused h e r ;; y_multi_direct h e lr dr rr
   | _, _, _ => None
   end.
 
@@ -312,10 +339,12 @@ Fixpoint y_op (grow : growth) (s : st) (o : op) {struct o} : res :=
                   h' <- y_store (snd sh) d v ;; Some (mkst h' (en s)))
       end
   | OMulti ls rs =>
-      ret_st (ds <- y_lvs (hp s) (en s) ls ;;
-              if any_direct ls rs then
+      ret_st (if any_direct ls rs then
+                ds <- y_lvs_lazy (hp s) (en s) ls ;;
                 he <- y_multi_direct (hp s) (en s) ls ds rs ;; Some (mkst (fst he) (snd he))
-              else if has_nil rs then None   (* types[i] of nil is nil: reflect.New(nil) panics in the host *)
+              else
+              ds <- y_lvs (hp s) (en s) ls ;;
+              if has_nil rs then None   (* types[i] of nil is nil: reflect.New(nil) panics in the host *)
               else
                 (* assign, multi: t[i] = New; t[i].Set(s(f)) for all i, then d(f).Set(t[i]) *)
                 ss <- y_rvs (hp s) (en s) rs ;;
